@@ -792,6 +792,18 @@ func c05Check(run *Run, src []byte, stream string, limD, limF int) {
 					Detail: fmt.Sprintf("accepted although real depth=%d fields=%d exceed limits depth=%d fields=%d", d, f, limD, limF)}, known)
 			}
 			feats = append(feats, "limits_ok")
+			// adaptive limits: one below the measured depth / field count must be rejected
+			for _, al := range [][2]int{{d - 1, 0}, {0, f - 1}} {
+				if al[0] <= 0 && al[1] <= 0 {
+					continue
+				}
+				l2, p2 := c05ImplLimits(src, al[0], al[1])
+				if p2 == nil && l2.Verdict == "ok" {
+					run.Violate(Violation{Kind: "oracle", Clause: "limits_sound",
+						Input: map[string]any{"src": hx(src), "src_text": string(src), "maxDepth": al[0], "maxFields": al[1], "stream": stream}, Impl: l2,
+						Detail: fmt.Sprintf("accepted although real depth=%d fields=%d exceed limits depth=%d fields=%d", d, f, al[0], al[1])}, "")
+				}
+			}
 		} else {
 			feats = append(feats, "limits_reject")
 		}
